@@ -4,6 +4,7 @@
 //! Exit codes: 0 property held on everything explored (known findings are printed as KNOWN-FINDING lines),
 //! 1 violation (a line `VIOLATION property=<ID> replay=<path>`), 2 inconclusive (usage / internal error).
 
+mod fuzz;
 mod p_adsr;
 mod p_api;
 mod p_clamp;
@@ -86,6 +87,27 @@ fn dispatch(id: &str, quick: bool, seed: u64) -> Option<(Outcome, u64)> {
         "C20" => p_clamp::c20(quick, seed),
         _ => return None,
     };
+    let mut o = o;
+    if !quick && !o.failed() {
+        // coverage-guided campaign on the libFuzzer target that decodes into the same case type (thorough tier only)
+        let camp = match id {
+            "C01" | "C02" | "C03" => Some(("adsr_ops", 150_000u64, 600usize)),
+            "C04" | "C05" | "C18" => Some(("midi_model", 300_000, 1200)),
+            "C06" => Some(("midi_stream", 150_000, 600)),
+            "C07" | "C08" | "C09" | "C19" => Some(("quant_ops", 300_000, 1200)),
+            "C13" => Some(("glide_ops", 100_000, 400)),
+            "C15" | "C16" => Some(("ribbon_ops", 20_000, 200)),
+            "C17" => Some(("api_any", 200_000, 1500)),
+            _ => None,
+        };
+        if let Some((target, runs, max_len)) = camp {
+            let prop: &'static str = Box::leak(id.to_string().into_boxed_str());
+            let c = fuzz::Campaign { target, prop, runs_per_proc: runs, procs: 8, max_len };
+            let part = fuzz::campaign(&c, seed);
+            o.rule.push_str(&format!(" | thorough tier adds a libFuzzer campaign on target `{}` (8 processes x {} executions, fresh corpus seeded with random and hand-made inputs, -len_control=0, only this property's oracle armed); crash artifacts are re-decoded and re-judged in-process", target, runs));
+            o.absorb(part);
+        }
+    }
     let nt = match id {
         "C10" => p_lfo::c10_nontrivial(&o),
         "C12" => p_lfo::c12_nontrivial(&o),
@@ -132,6 +154,12 @@ fn replay_engine(property: &str, engine: &str, case: &Value) -> Result<(), Failu
         e if e.starts_with("midi_") => p_midi::replay(property, e, case),
         e if e.starts_with("glide_") => p_glide::replay(e, case),
         "api_any" => p_api::replay(case),
+        "fuzz_bytes" => {
+            let target = case["target"].as_str().unwrap_or("");
+            let bytes: Vec<u8> = case["bytes"].as_array().map(|a| a.iter().map(|x| x.as_u64().unwrap_or(0) as u8).collect()).unwrap_or_default();
+            std::env::set_var("VFUZZ_PROP", property);
+            vcore::decode::judge(target, &bytes).2
+        }
         e if e.starts_with("ribbon_") => p_ribbon::replay(property, e, case),
         _ => Err(Failure::new("replay_unknown_engine", 0, format!("no replay handler for engine {}", engine))),
     }
